@@ -489,7 +489,11 @@ func runProgram(p *program, enc *json.Encoder) {
 		c := dctx.New(0, decimal.ToNearestEven)
 		m.ctxs[n] = &c
 	}
-	reset := M{"op": "Reset", "prog": p.ID, "out": "ok", "regs": m.names}
+	ctxNames := p.Ctxs
+	if ctxNames == nil {
+		ctxNames = []string{}
+	}
+	reset := M{"op": "Reset", "prog": p.ID, "out": "ok", "regs": m.names, "ctxs": ctxNames}
 	m.observe(reset, m.names)
 	enc.Encode(reset)
 	for _, s := range p.Steps {
